@@ -208,6 +208,70 @@ def session_ops(r, tier):
     return ops
 
 
+def body_op(r, v, keyid, secret, region, body):
+    """one header-signing op (or the query-string variant, which has no body) with the given body token"""
+    if v == "s3h":
+        return "s3h %s %s %s %s %s %s %s" % (hx(keyid), hx(secret), hx(region), hx(r.choice([b"GET", b"PUT", b"POST"])),
+                                             hx(gen_name(r, 1)), hx(gen_path(r, False)), body)
+    if v == "s3q":
+        return "s3q %s %s %s %s %s %s %d" % (hx(keyid), hx(secret), hx(region), hx(r.choice([b"GET", b"PUT"])),
+                                             hx(gen_name(r, 1)), hx(gen_path(r, False)), gen_expiry(r))
+    x = r.choice([b"ec2", b"sns", b"email", b"s3", b"sqs"]) if v == "svc" else r.choice([b"GetItem", b"PutItem", b"Query"])
+    return "%s %s %s %s %s %s" % (v, hx(keyid), hx(secret), hx(region), hx(x), body)
+
+
+def pbuffer_ops(r, tier):
+    """an application that keeps ONE request buffer: it is refilled in place (same address, same length, other bytes) between
+    consecutive signing calls of any of the four variants.  What a call returns depends on the buffer's contents only."""
+    keyid, secret, region = gen_name(r, 1), gen_secret(r), r.choice([b"us-east-1", b"eu-west-1", gen_name(r, 1)])
+    ops = ["time %d" % r.choice([1369353600, gen_time(r)])]
+    n = r.choice([1, 2, 32, 55, 56, 63, 64, 65, 119, 120, r.range(1, 300), r.range(1, 2000)])
+    cur = bytearray(r.bytes(n))
+    ops.append("bodyset " + hx(bytes(cur)))
+    same_variant = r.weighted([(None, 50), ("s3h", 17), ("svc", 17), ("ddb", 16)])
+    for i in range(r.range(2, 7)):
+        v = same_variant or r.weighted([("s3h", 30), ("svc", 30), ("ddb", 25), ("s3q", 15)])
+        ops.append(body_op(r, v, keyid, secret, region, "@"))
+        k = r.below(100)
+        if k < 45:
+            cur = bytearray(r.bytes(len(cur)))                      # refilled: same length, new contents
+        elif k < 65:
+            j = r.below(len(cur))
+            cur[j] ^= 1 << r.below(8)                               # one bit flipped in place
+        elif k < 75:
+            pass                                                    # a genuine retry of the same data
+        elif k < 85:
+            cur = bytearray(r.bytes(r.choice([len(cur) + 1, max(1, len(cur) - 1), r.range(1, 300)])))   # another length
+        elif k < 92:
+            ops.append(body_op(r, r.choice(["s3h", "svc", "ddb"]), keyid, secret, region, gen_body(r, "quick")))  # a fresh buffer in between
+            cur = bytearray(r.bytes(len(cur)))
+        else:
+            ops.append("time %d" % gen_time(r))
+            cur = bytearray(r.bytes(len(cur)))
+        ops.append("bodyset " + hx(bytes(cur)))
+    ops.append(body_op(r, same_variant or r.choice(["s3h", "svc", "ddb"]), keyid, secret, region, "@"))
+    return ops
+
+
+FAILAT_MAX = 12
+
+
+def failat_ops(r, tier, v, k):
+    """the k-th allocation of one signing call fails: the call fails or returns exactly the Spec's value"""
+    keyid, secret, region = gen_name(r, 1), gen_secret(r), r.choice([b"us-east-1", gen_name(r, 1)])
+    ops = ["time %d" % r.choice([1369353600, 0, Y9999, r.below(2**32)])]
+    body = r.choice(["ABSENT", "-", hx(r.bytes(r.range(1, 200)))])
+    if r.chance(1, 4):
+        ops.append("bodyset " + hx(r.bytes(r.range(1, 100))))
+        body = "@"
+    ops += ["failat %d" % k, body_op(r, v, keyid, secret, region, body)]
+    # and the next call, without a fault, is not disturbed by the failed one
+    ops.append(body_op(r, r.choice(["s3h", "s3q", "svc", "ddb"]), keyid, secret, region, body))
+    if r.chance(1, 3):
+        ops += ["failat %d" % r.range(1, FAILAT_MAX), body_op(r, r.choice(["s3h", "s3q", "svc", "ddb"]), keyid, secret, region, body)]
+    return ops
+
+
 def gen_aws(rng, tier, mult):
     n = (2000 if tier == "quick" else 20000) * mult
     cases = [["kat %d" % i for i in range(7)]]
@@ -228,6 +292,14 @@ def gen_aws(rng, tier, mult):
             cases.append(ops)
         else:
             cases.append(["time %d" % gen_time(r), sign_op(r, tier, False, bad=True)])
+    # one persistent request buffer refilled in place between calls
+    for ci in range(n // 8):
+        cases.append(pbuffer_ops(rng.fork("p%d" % ci), tier))
+    # allocation-failure stream: every variant x k = 1..12, a few instances each
+    for rep in range((2 if tier == "quick" else 10) * mult):
+        for v in ("s3h", "s3q", "svc", "ddb"):
+            for k in range(1, FAILAT_MAX + 1):
+                cases.append(failat_ops(rng.fork("f%d%s%d" % (rep, v, k)), tier, v, k))
     return cases
 
 
@@ -237,6 +309,7 @@ def _unhex(t):
 
 def classify(case, out):
     tags = []
+    pb, fk = None, 0
     for o, line in zip(case, out + [""] * len(case)):
         t = o.split()
         op = t[0]
@@ -248,11 +321,30 @@ def classify(case, out):
         if op == "kat":
             tags.append("op:kat")
             continue
+        if op == "bodyset":
+            nb = 0 if t[1] == "-" else len(t[1]) // 2
+            if pb is None:
+                tags.append("bodyset:first")
+            elif nb != len(pb):
+                tags.append("bodyset:other length (new block)")
+            else:
+                tags.append("bodyset:in place, " + ("same bytes" if _unhex(t[1]) == pb else "other bytes"))
+            pb = _unhex(t[1])
+            continue
+        if op == "failat":
+            fk = int(t[1])
+            continue
+        if fk:
+            tags.append("failat:%s k=%s %s" % (op, fk if fk <= 7 else "8..12", line.rsplit(" ", 1)[-1]))
+            fk = 0
         tags.append("op:" + op)
         l1 = line.split(" | ")[0]
         tags.append("answer:" + (l1.split()[0] if l1 else "none"))
         if op in ("s3h", "svc", "ddb"):
             b = t[-1]
+            if b == "@":
+                tags.append("body:@ (persistent buffer)")
+                b = "ABSENT" if pb is None else (hx(pb) if pb else "-")
             nb = -1 if b == "ABSENT" else 0 if b == "-" else len(b) // 2
             tags.append("body:" + ("absent" if nb < 0 else "empty" if nb == 0 else "1" if nb == 1 else "2..63" if nb < 64 else
                                    "64..1499" if nb < 1500 else "1500..65535" if nb < 65536 else "64KiB..100KiB"))
@@ -286,8 +378,12 @@ def components(ctx):
              "paths over the same plus '/', secrets over printable ASCII (\"AWS4\"+secret around the 64-byte HMAC block), bodies absent / "
              "empty / 1 byte / SHA-256 block boundaries / up to 100 KiB (thorough), expiry over int incl. INT_MIN/INT_MAX; 15% of cases make "
              "several calls with the clock moving in between; 15% use characters outside the domain (compared with the model only); "
+             "+12.5%: ONE persistent body buffer (`bodyset`, body `@`) signed 3..8 times by the four variants and refilled IN PLACE "
+             "between the calls (same address and length: new bytes 45%, one bit flipped 20%, unchanged 10%; other length, a fresh "
+             "buffer or a clock step in between otherwise); + allocation-failure stream: each variant x k=1..12, the k-th "
+             "malloc/strdup of the call fails: it must fail or return exactly the Spec's value, and the next call is undisturbed; "
              "non-trivial = at least one signing call; distinct by hash of the op list",
-        classify=classify, cpu=[], ldflags=["-Wl,--wrap=time"],
+        classify=classify, cpu=[], ldflags=["-Wl,--wrap=time,--wrap=malloc,--wrap=calloc,--wrap=realloc,--wrap=strdup"],
         # the harness runs in a zone 13:30 ahead of UTC: a signature computed from local time would differ
         env={"TZ": "VRF-13:30"})]
 
